@@ -562,7 +562,6 @@ def stamps(H, case, kind):
     F = dict((c, 0.0) for c in table)
     count = dict((c, 0) for c in table)
     arrival_instants = set(a['t'] for a in H.arr)
-    ambiguous = False      # "did the scheduler empty before or after that arrival?" is a same-instant tie
     emptied_at = None
     for g, what, a in evs:
         c = a['cls']
@@ -576,14 +575,11 @@ def stamps(H, case, kind):
                 for x in F:
                     F[x] = 0.0
                 resets += 1
-                if emptied_at is not None and emptied_at < t:
-                    ambiguous = False          # a clean idle gap: the busy period certainly ended, everything was reset
             else:
                 V += (t - last) / sum(table[x] for x in active)
             F[c] = max(F[c], V) + a['size'] * 8.0 / (a['rate'] * table[c])
-            if not ambiguous:
-                a['stamp'] = F[c]
-                a['V'] = V
+            a['stamp'] = F[c]
+            a['V'] = V
             count[c] += 1
         else:
             if active:
@@ -595,13 +591,12 @@ def stamps(H, case, kind):
                     F[x] = 0.0
                 emptied_at = t
                 if t in arrival_instants:
-                    # an arrival in the very instant the scheduler empties: whether virtual time was reset before that
-                    # packet was stamped depends on the order inside the instant. Until the next clean idle gap the
-                    # stamps are not uniquely determined by the statement: no stamp clause is applied to them.
-                    ambiguous = True
-                    for b in H.arr:
-                        if b['t'] == t:
-                            b.pop('stamp', None)
+                    # an arrival in the very instant the scheduler empties: the recorded order of actions says which came
+                    # first. A packet handed in after the last departure (the downstream device already holds that
+                    # packet, the public counters read empty) starts a new busy period with V = 0 and all F = 0; one
+                    # handed in before it was stamped in the old period. (Until the ninth round this was treated as an
+                    # undecidable same-instant tie and no stamp clause was applied up to the next clean idle gap.)
+                    emptied_same_instant = True
         last = t
     return resets
 
